@@ -1811,6 +1811,11 @@ fn read_residuals<R: BitRead, I: SignedInteger>(
         let partition_order = reader.read::<4, u32>()?;
         let partition_count = 1 << partition_order;
 
+        if block_size < partition_count {
+            // more partitions than samples in the block
+            return Err(Error::InvalidPartitionOrder);
+        }
+
         let partitions = residuals.rchunks_mut(block_size / partition_count).rev();
 
         if partitions.len() != partition_count {
